@@ -267,7 +267,13 @@ var c09DefaultRow = c09Row{false, 32 << 20, 8 << 20, "", ""}
 
 // which too-large answer the property demands from entry e for a VALID archive under row (none: no
 // expectation for this entry)
-func c09ExpectFor(e int, in *c09Input, row c09Row) c09Expect {
+func c09ExpectFor(j *c09Job, in *c09Input, row c09Row) c09Expect {
+	e := j.Entry
+	if e == c09ELoadIndex && in.v2 && j.Flavour == 1 {
+		// LoadIndex over a plain io.Reader mis-positions itself on a CARv2 (DESIGN.md section 6 #2, property C03):
+		// what it then parses is not the header, so no limit expectation is attached
+		return c09Expect{kind: "none"}
+	}
 	if !in.valid || (row.hdr == "" && row.sec == "") {
 		return c09Expect{kind: "none"}
 	}
@@ -371,7 +377,7 @@ func c09Plan(r *RNG, plan *[]c09Planned, in *c09Input, row c09Row, entries []int
 				j.Entry = c09EResumeHuge
 			}
 		}
-		ex := c09ExpectFor(j.Entry, in, row)
+		ex := c09ExpectFor(&j, in, row)
 		triv := in.valid && row.hdr == "" && row.sec == ""
 		*plan = append(*plan, c09Planned{job: j, expect: ex, class: in.class, trivial: triv})
 	}
